@@ -181,7 +181,7 @@ def check(pid, tier):
         if table_info is not None:
             tr = [json.loads(l) for l in open(recfile) if '"table":1' in l]
             table_info['records'] = len(tr)
-            table_info['judged_strictly'] = sum(1 for r in tr if r['late'] <= r['tol'] and r['elapsed'] <= r['timeout'] + r['tol'])
+            table_info['judged_strictly'] = sum(1 for r in tr if r['late'] <= r['tol'] and r.get('stall', 0) <= r['tol'] and r['elapsed'] <= r['timeout'] + r['tol'])
         race_note = None
         if pid == 'C19' and tier == 'thorough':
             # the concurrency clause under the race detector (the schedules come from 16 goroutines x 400 operations)
